@@ -422,7 +422,7 @@ pub fn c17(args: &Args) {
         return;
     }
     let seed = args.seed;
-    let per_backend = args.pick(320, 20_000);
+    let per_backend = args.opt_u64("per-backend", args.pick(320, 20_000));
     let in_process: Vec<Backend> = match args.opt_str("backend") {
         Some("lmdb") => vec![],
         Some(b) => vec![backend_from(b)],
